@@ -397,7 +397,8 @@ def main():
     if tier == "thorough" and os.environ.get("VERIF_NO_COQCHK") != "1":
         with Lock("coq"):
             rc, out, err, dt = run(["timeout", "2400", "coqchk", "-silent", "-o", "-Q", "Model", "Model", "-Q", "Legacy", "Legacy", "-Q", "proofs", "proofs",
-                                    "-Q", "Properties", "Properties", "-Q", "Tie", "Tie", "-Q", "Extracted", "Extracted", "Properties." + pid], cwd=COQ, timeout=2500)
+                                    "-Q", "Properties", "Properties", "-Q", "Tie", "Tie", "-Q", "Extracted", "Extracted", "Properties." + pid]
+                                   + [f[:-2].replace("/", ".") for f in cfg.get("tie", [])], cwd=COQ, timeout=2500)
         coqchk_txt = (out + err)[-3000:]
         if rc != 0:
             broken.append("coqchk Properties.%s failed" % pid)
@@ -441,7 +442,7 @@ def main():
         "property_id": pid, "tier": tier, "seed": seed, "level": "proof",
         "coverage": {
             "obligations": nob, "discharged": ndis,
-            "checker_cmd": "cd /verif/coq && coq_makefile -f _CoqProject -o Makefile && make -j16  (full .vo build, coqc 8.16.1); Print Assumptions per theorem; thorough adds make clean + coqchk -silent -o Properties.%s" % pid,
+            "checker_cmd": "cd /verif/coq && coq_makefile -f _CoqProject -o Makefile && make -j16  (full .vo build, coqc 8.16.1); Print Assumptions per theorem; thorough adds make clean + coqchk -silent -o Properties.%s and the property's Tie modules" % pid,
             "trusted_base": [
                 "Coq 8.16.1 kernel; vm_compute (witnesses, tie theorems, in-Coq case evaluation); no native_compute",
                 "Print Assumptions: " + (assum.replace("\n", " | ") if assum else "n/a"),
